@@ -242,7 +242,8 @@ type Server struct {
 
 	nextProtos map[string]ServeHandler
 
-	concurrencyCh chan struct{}
+	concurrencyCh     chan struct{}
+	concurrencyChOnce sync.Once
 
 	idleConns map[net.Conn]*atomic.Int64
 	done      chan struct{}
@@ -1985,10 +1986,8 @@ func (s *Server) Serve(ln net.Listener) error {
 	if s.done == nil {
 		s.done = make(chan struct{})
 	}
-	if s.concurrencyCh == nil {
-		s.concurrencyCh = make(chan struct{}, maxWorkersCount)
-	}
 	s.mu.Unlock()
+	s.initConcurrencyCh()
 
 	wp := &workerPool{
 		WorkerFunc:            s.serveConn,
@@ -2226,6 +2225,7 @@ func (s *Server) ServeConn(c net.Conn) error {
 		return ErrConcurrencyLimit
 	}
 	defer s.releaseConcurrency()
+	s.initConcurrencyCh()
 
 	s.setState(c, StateNew)
 	s.open.Add(1)
@@ -2280,6 +2280,16 @@ func (s *Server) GetOpenConnectionsCount() int32 {
 // This function is intended be used by monitoring systems.
 func (s *Server) GetRejectedConnectionsCount() uint32 {
 	return s.rejectedRequestsCount.Load()
+}
+
+// initConcurrencyCh creates the TimeoutHandler semaphore. It is needed by
+// connections served through ServeConn as well as by Serve.
+func (s *Server) initConcurrencyCh() {
+	s.concurrencyChOnce.Do(func() {
+		if s.concurrencyCh == nil {
+			s.concurrencyCh = make(chan struct{}, s.getConcurrency())
+		}
+	})
 }
 
 func (s *Server) getConcurrency() int {
